@@ -30,6 +30,8 @@ def run(ck):
     ck.rule("C05.R3", "slot cleared only by the last CloseGuard of a closing span (after on_close)", floor=7)
     ck.rule("C05.R4", "Clear resets every stored field not overwritten at creation", floor=5)
     ck.rule("C05.R5", "the registry's own references are released through the owning stack", floor=2)
+    ck.rule("C05.R11", "a span is not reported closed while a layer has yet to be told it was exited: in the stack's exit, whatever can release the entered reference "
+            "(and so close the span) comes after the layer's on_exit", floor=1)
     ck.rule("C05.R10", "the registry's releases go through get_default: its re-entrancy flag is given back even when a layer's callback panicked (as C02.R6)", floor=3)
     ck.rule("C05.R9", "the span reference count cannot wrap: at least pointer-sized", floor=2)
     ck.rule("C05.R8", "reload::Subscriber forwards on_close (and every other notification) under a blocking per-call lock (as C12.R3)", floor=20)
@@ -57,6 +59,7 @@ def run(ck):
             C09.dispatch_forwarding(ck, F, rid="C05.R7", only={"new_span", "clone_span", "try_close", "drop_span", "enter", "exit"})
             # ... and a reference released through the deprecated drop_span is still a release: on a Layered stack it closes
             C09.layered_drop_span(ck, F, rid="C05.R7")
+            exit_before_close(ck, F)
             # a layer behind reload::Subscriber gets its on_close (and everything else) only if the wrapper waits for its lock
             from rules import C12
             C12.r3(ck, F, rid="C05.R8")
@@ -499,6 +502,24 @@ def r5(ck, F, rid="C05.R5"):
 
 def short(p):
     return p.replace("tracing_subscriber::registry::sharded::", "").replace("tracing_core::collect::", "")
+
+
+def exit_before_close(ck, F, rid="C05.R11"):
+    """Registry::exit gives the entered reference back; when the handle was dropped while the span was entered that is the
+    last one, and the whole close (every layer's on_close, then the removal) runs inside `inner.exit()`. A Layered that
+    calls inner.exit() *before* its own layer's on_exit therefore shows that layer enter -> close -> exit, the exit for a
+    span that is already gone (fmt's on_exit panics on it when close records are configured)."""
+    b = F.impl_method("tracing_core::collect::Collect", "tracing_subscriber::subscribe::layered::Layered", "exit")
+    if not ck.anchor(rid, "Layered::exit", b):
+        return
+    inner = [bb for bb, t in b.calls() if t["callee"].get("path") == "tracing_core::collect::Collect::exit"]
+    mine = [bb for bb, t in b.calls() if t["callee"].get("method") == "on_exit"]
+    key = "Layered::exit: the layer's on_exit precedes the inner exit that may close the span"
+    if len(inner) == 1 and len(mine) == 1 and b.dominates(mine[0], inner[0]):
+        ck.ok(rid, key, fn=b.path)
+    else:
+        ck.bad(rid, key, where(b.raw["sp"]), "inner.exit() runs first: when it releases the span's last reference (handle dropped while entered) every layer sees "
+               "on_close, and the span is removed, before this layer's on_exit is called for it", fn=b.path)
 
 
 def clear_resets_slot(ck, F, rid):
